@@ -293,9 +293,71 @@ fn one(cs: &mut Cases, class: &str, pushes: &[Push], variant: u8, nontrivial: bo
             }
             if out.path_and_query.contains('#') {
                 cs.fail_last("fragment", format!("'#' in request target {}", out.path_and_query));
+                return;
+            }
+            // the same request read by a server derived with `#[conjure_endpoints]` from the same declaration (keys with
+            // reserved characters: the derived server must look them up as declared, not as they travel)
+            if variant == 9 {
+                let sent: Vec<String> = pushes.iter().filter_map(|p| match p {
+                    Push::Path(v) => Some(v.clone()),
+                    Push::Query(_, v) => Some(v.clone()),
+                    _ => None,
+                }).collect();
+                match macro_server_reads(&out.path_and_query) {
+                    Ok(got) if got == sent => {}
+                    Ok(got) => cs.fail_last("macro-server:values", format!("the derived server's handler received {:?}, sent {:?} ({})", got, sent, out.path_and_query)),
+                    Err(e) => cs.fail_last("macro-server:values", format!("the derived server refuses the derived client's request {}: {}", out.path_and_query, e)),
+                }
             }
         }
     }
+}
+
+#[derive(Default)]
+struct KeysHandler(std::sync::Mutex<Vec<String>>);
+
+#[conjure_http::conjure_endpoints]
+trait MacroKeysService {
+    #[endpoint(method = GET, path = "/m/{p}/x")]
+    fn weird(
+        &self,
+        #[path] p: String,
+        #[query(name = "page&size")] a: String,
+        #[query(name = "a=b")] b: String,
+        #[query(name = "c+d e")] c: String,
+        #[query(name = "k%41")] d: String,
+        #[query(name = "\u{e9}/?#")] e: String,
+    ) -> Result<(), conjure_error::Error>;
+}
+
+impl MacroKeysService for std::sync::Arc<KeysHandler> {
+    fn weird(&self, p: String, a: String, b: String, c: String, d: String, e: String) -> Result<(), conjure_error::Error> {
+        *self.0.lock().unwrap() = vec![p, a, b, c, d, e];
+        Ok(())
+    }
+}
+
+fn macro_server_reads(path_and_query: &str) -> Result<Vec<String>, String> {
+    let pq = path_and_query.to_string();
+    guarded(move || {
+        use conjure_http::server::{Endpoint, Service};
+        let h = std::sync::Arc::new(KeysHandler::default());
+        let svc = MacroKeysServiceEndpoints::new(h.clone());
+        let rt = std::sync::Arc::new(ConjureRuntime::new());
+        let eps = Service::<crate::svc::RemoteBody, Vec<u8>>::endpoints(&svc, &rt);
+        let ep = eps.first().ok_or_else(|| "no endpoint".to_string())?;
+        let uri: http::Uri = pq.parse().map_err(|e| format!("{:?}", e))?;
+        let raw = uri.path().split('/').nth(2).unwrap_or("").to_string();
+        let mut req = http::Request::new(crate::svc::RemoteBody(vec![]));
+        *req.uri_mut() = uri;
+        let mut pp = PathParams::new();
+        pp.insert("p", &raw);
+        req.extensions_mut().insert(pp);
+        Endpoint::handle(&**ep, req, &mut http::Extensions::new()).map_err(|e| e.cause().to_string())?;
+        let got = h.0.lock().unwrap().clone();
+        Ok::<_, String>(got)
+    })
+    .and_then(|r| r)
 }
 
 fn templates(v: &str, w: &str) -> Vec<(&'static str, Vec<Push>)> {
